@@ -58,15 +58,15 @@ MUST_PROBE = {
     "C11": ["linearizable", "transport_disciplined", "runs_with_lock_contention", "purge_during_concurrent_run"],
     "C20": ["released_by_matching_request", "stayed_blocked_without_matching_request", "unsupported_code_immediate", "waiter_parked_before_cleanup", "request_on_another_agent_of_the_process"],
     "C06": ["accepted_valid_null", "accepted_valid_nonull", "rejected_by_chain_or_clock", "rejected_by_signature", "genuine_device_attested_first_on_same_attestor", "accepted_valid_special_key"],
-    "C07": ["listing_agrees", "purged_sign_refused", "hardcert_accepted"],
+    "C07": ["listing_agrees", "purged_sign_refused", "hardcert_accepted", "op_under_fault"],
     "C08": ["locked_list_empty", "locked_op_refused", "unlocked_with_passphrase", "wrong_passphrase_refused"],
     "C09": ["differential_hidden_some", "hidden_sign_refused"],
-    "C10": ["hardcert_accepted", "hardcert_refused", "sign_with_hardware_cert", "forward_relayed", "op_under_fault", "construct_failure_reported", "slow_reply/raw"],
+    "C10": ["hardcert_accepted", "hardcert_refused", "sign_with_hardware_cert", "forward_relayed", "op_under_fault", "construct_failure_reported", "slow_reply/raw", "upstream_failure_surfaced"],
     "C13": ["op_agrees", "served_failure", "slots_agree", "remote_slot_op", "short_slot_line", "signed_through_client_signer", "kept_key_intact_after_later_requests"],
     "C17": ["signed", "failover_used", "all_endpoints_fail", "retry_backoff_seen", "backoff_in_bounds", "endpoint_reachable_again_in_later_call"],
     "C18": ["signed", "impostor_before_genuine", "client_cert_presented", "client_chain_presented", "impostor_from_ca_of_another_tls_client"],
     "C01": ["proof_ok", "all_rejected", "regular_success"],
-    "C02": ["regular_success", "unconfigured_algo"],
+    "C02": ["regular_success", "unconfigured_algo", "request_served_by_handler_of_earlier_request"],
     "C03": ["regular_success", "regeneration", "cert_signs", "failure_with_old_certs"],
     "C04": ["placement_fired"],
     "C12": ["clean_eof", "oversize_reached", "large_frame_answered"],
